@@ -95,13 +95,13 @@ theorem prevSeq_complete (t p : Nat) (hp : p.Prime) (hs : p ≤ t) : ∃ j, prev
       have h2 : prevSeq t 0 ≠ p := fun e => hne ⟨0, e⟩
       have h1 : p ≤ prevPrime t := by
         by_contra hlt
-        exact Nat.findGreatest_is_greatest (P := Nat.Prime) (Nat.lt_of_not_le hlt) hs hp
+        exact prevPrime_greatest (Nat.lt_of_not_le hlt) hs hp
       simp only [prevSeq] at h2 ⊢; omega
     | succ j ih =>
       have h2 : prevSeq t (j + 1) ≠ p := fun e => hne ⟨j + 1, e⟩
       have h1 : p ≤ prevPrime (prevSeq t j - 1) := by
         by_contra hlt
-        exact Nat.findGreatest_is_greatest (P := Nat.Prime) (Nat.lt_of_not_le hlt) (by omega) hp
+        exact prevPrime_greatest (Nat.lt_of_not_le hlt) (by omega) hp
       simp only [prevSeq] at h2 ⊢; omega
   have hdec : ∀ j, prevSeq t j + j ≤ t := by
     intro j
